@@ -210,7 +210,7 @@ func suiteCodes(c *Ctx) {
 		c.CorrEq("t2:codes:comma_dec", "t2:codes:comma_dec", c.M.Call("t2_comma_dec", Hex(d)), impl, Hex(d))
 	}
 	// ---- lengths
-	n := c.N(5000, 100000)
+	n := c.N(3500, 60000)
 	cases := make([]lenCase, n)
 	seeds := make([]uint64, n)
 	for i := range cases {
